@@ -37,6 +37,9 @@ def parse_ops():
 OPS = parse_ops()
 
 
+JUNK_TAIL = bytes((0xA5, 0x5A, 0xC3, 0x3C)) * 16
+
+
 class Scratch:
     """64-byte aligned scratch block."""
 
@@ -49,6 +52,10 @@ class Scratch:
 
     def write(self, data, off=0):
         ctypes.memmove(self.addr + off, data, len(data))
+
+    def write_operand(self, data):
+        """Operand followed by 64 junk bytes: a read one or two words past the operand sees garbage, not the zeros of a fresh buffer."""
+        ctypes.memmove(self.addr, bytes(data) + JUNK_TAIL, len(data) + len(JUNK_TAIL))
 
     def fill(self, byte, n):
         ctypes.memset(self.addr, byte, n)
@@ -151,9 +158,9 @@ class Lib:
         f = self._fn[name]
         osz = self.sizeof(o.out_t)
         A, B, O = self.A, self.B, self.O
-        A.write(a)
+        A.write_operand(a)
         if b is not None:
-            B.write(b)
+            B.write_operand(b)
         if alias is None:
             O.fill(0xCD, osz)
             rv = f(O.ptr, A.ptr, B.ptr, arg)
@@ -182,7 +189,7 @@ class Lib:
             if isinstance(x, (bytes, bytearray)):
                 blk = blocks[bi]
                 bi += 1
-                blk.write(bytes(x))
+                blk.write_operand(bytes(x))
                 cargs.append(blk.ptr)
             elif x == "O":
                 self.O.fill(0xCD, out_size)
